@@ -225,16 +225,24 @@ impl proto::val_server::Val for broker::DataBroker {
                             message: "No entries found for the provided path".to_owned(),
                         }),
                     });
-                } else if let Some(_error) = error {
+                } else if let Some(error) = error {
                     // clear the entries vector since we only want to return rerrors
                     // and not partial success
                     entries.clear();
                     errors.push(proto::DataEntryError {
                         path: path.to_owned(),
-                        error: Some(proto::Error {
-                            code: 403,
-                            reason: "forbidden".to_owned(),
-                            message: "Permission denied for some entries".to_owned(),
+                        error: Some(match error {
+                            // an expired token is an authentication failure, not a missing scope
+                            ReadError::PermissionExpired => proto::Error {
+                                code: 401,
+                                reason: "unauthorized".to_owned(),
+                                message: "Unauthorized".to_owned(),
+                            },
+                            _ => proto::Error {
+                                code: 403,
+                                reason: "forbidden".to_owned(),
+                                message: "Permission denied for some entries".to_owned(),
+                            },
                         }),
                     });
                 }
